@@ -974,6 +974,23 @@ where
                 "{}\n(minimal case reproduced {}/{} times on re-execution)",
                 fl.msg, reproduced, runs
             );
+            // A call that never returned (as opposed to a lateness bound that was exceeded) may
+            // depend on the schedule: the generation phase runs many cases side by side, the
+            // re-executions above run alone. Such a failure gets a second chance under
+            // concurrency - twelve copies of the case at once; it is confirmed if any of them
+            // gets stuck in the same way (a machine hiccup does not repeat itself like that).
+            let lateness = ["late", "exceeds-tuning", "silence-not-detected", "did-not-end"].iter().any(|w| fail.sig.contains(w));
+            if fl.hang && reproduced < runs && !lateness && self.watchdog_s > 0 {
+                let outs: Vec<Outcome> = std::thread::scope(|sc| {
+                    let hs: Vec<_> = (0..12).map(|_| sc.spawn(|| self.run_exec(&case))).collect();
+                    hs.into_iter().filter_map(|h| h.join().ok()).collect()
+                });
+                let again = outs.iter().filter(|o| o.fail.as_ref().map_or(false, |f| f.sig == fail.sig)).count();
+                if again > 0 {
+                    fl.msg = format!("{}\n(and {}/12 times when twelve copies of the case ran concurrently: schedule dependent)", fl.msg, again);
+                    reproduced = runs;
+                }
+            }
             if fl.hang && reproduced < runs {
                 // a hang that does not recur every time is not reported as a violation
                 pr.inconclusive += 1;
